@@ -487,29 +487,43 @@ def r3(ctx: Ctx) -> None:
       "the rectangle list, and later re-assignment): fixed_rectangles() and the 'hard rectangle cannot have a region' "
       "rejection depend on them", floor=3)
 def r4(ctx: Ctx) -> None:
+    # decided on the normal form (locals looked through, keywords bound to positions, helpers cut out of these functions unfolded):
+    # the flags a rectangle is built with are the function's own flag parameters / the flags of the module at hand
+    from framelint.canon import canon_function as _cf
     n = 0
-    for rel, q, want in [(YREAD, "parse_yaml_rectangles", ("fixed", "hard")), (NETLIST, "Netlist.assign_rectangles", ("is_fixed", "is_hard"))]:
+
+    def flag_of(x, which):
+        """x is <module>.is_fixed / .is_hard (or the field behind it): the module expression, else None"""
+        names = {"fixed": ("is_fixed", "_fixed"), "hard": ("is_hard", "_hard")}[which]
+        if isinstance(x, tuple) and len(x) == 3 and x[0] == "a" and x[2] in names:
+            return x[1]
+        return None
+    for rel, q, kind in [(YREAD, "parse_yaml_rectangles", "params"), (NETLIST, "Netlist.assign_rectangles", "module")]:
         f = ctx.func(rel, q)
-        calls = [c_ for c_ in walk_own(f.node) if isinstance(c_, ast.Call) and call_name(c_) == "parse_yaml_rectangle"]
+        c = _cf(f, ctx.model, None, expand=True)
+        calls = atoms_of(c, lambda x: x[0] == "c" and len(x) == 4 and x[1] == ("g", "parse_yaml_rectangle"))
         ctx.require(len(calls) >= 1, f"{q}: no parse_yaml_rectangle call")
         for c_ in calls:
             n += 1
-            args = [ast.unparse(a) for a in c_.args[1:]] + [f"{k.arg}={ast.unparse(k.value)}" for k in c_.keywords]
-            ok = len(c_.args) + len(c_.keywords) == 3 and any(want[0] in a for a in args) and any(want[1] in a for a in args)
-            if ok and len(c_.args) == 3:
-                ok = want[0] in ast.unparse(c_.args[1]) and want[1] in ast.unparse(c_.args[2])
-            ctx.site(f.where, "rectangle parsed with the module's fixed and hard flags", call=ast.unparse(c_)[:100], ok=ok)
+            args = c_[2]
+            if kind == "params":
+                ok = len(args) == 3 and not c_[3] and args[1] == ("p", 1) and args[2] == ("p", 2)
+            else:
+                ok = len(args) == 3 and not c_[3] and flag_of(args[1], "fixed") is not None and flag_of(args[1], "fixed") == flag_of(args[2], "hard")
+            ctx.site(f.where, "rectangle parsed with the module's fixed and hard flags", call=show(c_)[:100], ok=ok)
             if not ok:
-                ctx.report(f.where, f"flags-dropped {ast.unparse(c_)[:80]}", f"{q} builds a rectangle without the module's fixed/hard flags (in that order): the rectangle of a "
-                           "fixed module is not reported by fixed_rectangles() and a hard rectangle with a region is accepted", lineno=c_.lineno)
+                ctx.report(f.where, f"flags-dropped {show(c_)[:80]}", f"{q} builds a rectangle without the module's fixed/hard flags (in that order): the rectangle of a "
+                           "fixed module is not reported by fixed_rectangles() and a hard rectangle with a region is accepted", lineno=f.node.lineno)
     fm = ctx.func(YREAD, "parse_yaml_module")
-    calls = [c_ for c_ in walk_own(fm.node) if isinstance(c_, ast.Call) and call_name(c_) == "parse_yaml_rectangles"]
+    cm = _cf(fm, ctx.model, None, expand=True)
+    calls = atoms_of(cm, lambda x: x[0] == "c" and len(x) == 4 and x[1] == ("g", "parse_yaml_rectangles"))
     ctx.site(fm.where, "module reader passes m.is_fixed, m.is_hard to the rectangle-list reader", calls=len(calls))
     for c_ in calls:
         n += 1
-        ok = len(c_.args) == 3 and "is_fixed" in ast.unparse(c_.args[1]) and "is_hard" in ast.unparse(c_.args[2])
+        args = c_[2]
+        ok = len(args) == 3 and not c_[3] and flag_of(args[1], "fixed") is not None and flag_of(args[1], "fixed") == flag_of(args[2], "hard")
         if not ok:
-            ctx.report(fm.where, f"flags-dropped {ast.unparse(c_)[:80]}", "parse_yaml_module does not hand the module's (is_fixed, is_hard) to the rectangle reader", lineno=c_.lineno)
+            ctx.report(fm.where, f"flags-dropped {show(c_)[:80]}", "parse_yaml_module does not hand the module's (is_fixed, is_hard) to the rectangle reader", lineno=fm.node.lineno)
     ctx.require(n >= 3, "fewer rectangle-construction sites than confirmed")
 
 
